@@ -14,266 +14,9 @@ use super::*;
 use crate::instructions::*;
 use crate::operand::*;
 
-// ---------- oracle 1: decoder written from the instruction layout ----------
-#[derive(Clone, Copy, PartialEq, Eq, Debug)]
-pub enum Reg { AP, FP }
-#[derive(Clone, Copy, PartialEq, Eq, Debug)]
-pub enum Op1 { Op0, Imm, FP, AP }
-#[derive(Clone, Copy, PartialEq, Eq, Debug)]
-pub enum ResL { Op1, Add, Mul, Unconstrained }
-#[derive(Clone, Copy, PartialEq, Eq, Debug)]
-pub enum PcU { Regular, Jump, JumpRel, Jnz }
-#[derive(Clone, Copy, PartialEq, Eq, Debug)]
-pub enum ApU { Regular, Add, Add1, Add2 }
-#[derive(Clone, Copy, PartialEq, Eq, Debug)]
-pub enum FpU { Regular, ApPlus2, Dst }
-#[derive(Clone, Copy, PartialEq, Eq, Debug)]
-pub enum Opc { Nop, AssertEq, Call, Ret }
-#[derive(Clone, Copy, PartialEq, Eq, Debug)]
-pub struct Dec {
-    off0: i32, off1: i32, off2: i32,
-    dst: Reg, op0: Reg, op1: Op1, res: ResL, pc: PcU, ap: ApU, fp: FpU, opc: Opc,
-    ext: u128,
-}
-
-/// bits 0..47: three 16-bit offsets biased by 2^15; bits 48..62: flags
-/// [dst_reg, op0_reg, op1_src(3), res_logic(2), pc_update(3), ap_update(2), opcode(3)];
-/// bits 63..: opcode extension. Each multi-bit group is one-hot or zero.
-pub fn spec_decode(w: u128) -> Option<Dec> {
-    let off = |x: u128| -> i32 { (x & 0xffff) as i32 - 0x8000 };
-    let f = (w >> 48) & 0x7fff;
-    let bit = |i: u32| -> bool { (f >> i) & 1 == 1 };
-    let op1 = match (bit(2), bit(3), bit(4)) {
-        (false, false, false) => Op1::Op0,
-        (true, false, false) => Op1::Imm,
-        (false, true, false) => Op1::FP,
-        (false, false, true) => Op1::AP,
-        _ => return None,
-    };
-    let pc = match (bit(7), bit(8), bit(9)) {
-        (false, false, false) => PcU::Regular,
-        (true, false, false) => PcU::Jump,
-        (false, true, false) => PcU::JumpRel,
-        (false, false, true) => PcU::Jnz,
-        _ => return None,
-    };
-    let res = match (bit(5), bit(6)) {
-        (false, false) => if pc == PcU::Jnz { ResL::Unconstrained } else { ResL::Op1 },
-        (true, false) => if pc == PcU::Jnz { return None } else { ResL::Add },
-        (false, true) => if pc == PcU::Jnz { return None } else { ResL::Mul },
-        _ => return None,
-    };
-    let opc = match (bit(12), bit(13), bit(14)) {
-        (false, false, false) => Opc::Nop,
-        (true, false, false) => Opc::Call,
-        (false, true, false) => Opc::Ret,
-        (false, false, true) => Opc::AssertEq,
-        _ => return None,
-    };
-    let ap = match (bit(10), bit(11)) {
-        (false, false) => if opc == Opc::Call { ApU::Add2 } else { ApU::Regular },
-        (true, false) => if opc == Opc::Call { return None } else { ApU::Add },
-        (false, true) => if opc == Opc::Call { return None } else { ApU::Add1 },
-        _ => return None,
-    };
-    let fp = match opc { Opc::Call => FpU::ApPlus2, Opc::Ret => FpU::Dst, _ => FpU::Regular };
-    let ext = w >> 63;
-    if ext > 3 { return None; }
-    Some(Dec {
-        off0: off(w), off1: off(w >> 16), off2: off(w >> 32),
-        dst: if bit(0) { Reg::FP } else { Reg::AP },
-        op0: if bit(1) { Reg::FP } else { Reg::AP },
-        op1, res, pc, ap, fp, opc, ext,
-    })
-}
-
-// ---------- abstract machine ----------
-// Memory contents and field operations stay uninterpreted: a value is named by the address(es)
-// it is read from. Two steps are equal iff they read/write the same addresses in the same roles
-// for the same symbolic (pc, ap, fp).
-#[derive(Clone, Copy, PartialEq, Eq, Debug)]
-pub enum Val {
-    Cell(i64),            // [addr]
-    Imm,                  // the word following the instruction
-    Add(i64, i64, bool),  // [a] + ([b] | imm)
-    Mul(i64, i64, bool),  // [a] * ([b] | imm)
-    DD(i64, i32),         // [[addr] + off]
-    None,
-}
-#[derive(Clone, Copy, PartialEq, Eq, Debug)]
-pub enum Next { Seq(i64), Abs(Val), Rel(Val), JnzRel(i64, Val, i64) }
-#[derive(Clone, Copy, PartialEq, Eq, Debug)]
-pub enum ApNext { Same, Plus(i64), PlusRes(Val) }
-#[derive(Clone, Copy, PartialEq, Eq, Debug)]
-pub enum FpNext { Same, ApPlus2, FromCell(i64) }
-#[derive(Clone, Copy, PartialEq, Eq, Debug)]
-pub struct Step {
-    assert_eq: Option<(i64, Val)>,
-    call_writes: Option<(i64, i64, i64)>, // [a] := fp, [b] := pc + size
-    blake: Option<(i64, i64, i64, bool)>, // state ptr cell, message ptr cell, byte count cell, finalize
-    pc: Next,
-    ap: ApNext,
-    fp: FpNext,
-    qm31: bool,
-}
-#[derive(Clone, Copy)]
-pub struct St { pc: i64, ap: i64, fp: i64 }
-
-fn base(st: St, r: Reg) -> i64 { match r { Reg::AP => st.ap, Reg::FP => st.fp } }
-
-/// The VM's rule for one decoded instruction (state transition of the Cairo machine).
-/// `None` = the VM rejects the instruction.
-pub fn vm_step(d: Dec, st: St) -> Option<Step> {
-    let dst = base(st, d.dst) + d.off0 as i64;
-    let op0 = base(st, d.op0) + d.off1 as i64;
-    let size: i64 = if d.op1 == Op1::Imm { 2 } else { 1 };
-    if d.op1 == Op1::Imm && d.off2 != 1 { return None; }
-    let op1v = match d.op1 {
-        Op1::Imm => Val::Imm,
-        Op1::AP => Val::Cell(st.ap + d.off2 as i64),
-        Op1::FP => Val::Cell(st.fp + d.off2 as i64),
-        Op1::Op0 => Val::DD(op0, d.off2),
-    };
-    let is_imm = d.op1 == Op1::Imm;
-    let op1addr = match op1v { Val::Cell(a) => a, _ => 0 };
-    let res = match d.res {
-        ResL::Op1 => op1v,
-        ResL::Add => match op1v { Val::DD(..) => return None, _ => Val::Add(op0, op1addr, is_imm) },
-        ResL::Mul => match op1v { Val::DD(..) => return None, _ => Val::Mul(op0, op1addr, is_imm) },
-        ResL::Unconstrained => Val::None,
-    };
-    // opcode extensions
-    let mut blake = None;
-    let mut qm31 = false;
-    match d.ext {
-        0 => {}
-        1 | 2 => {
-            let ok = d.opc == Opc::Nop && (d.op1 == Op1::FP || d.op1 == Op1::AP) && d.res == ResL::Op1
-                && d.pc == PcU::Regular && (d.ap == ApU::Regular || d.ap == ApU::Add1);
-            if !ok { return None; }
-            blake = Some((op0, op1addr, dst, d.ext == 2));
-        }
-        3 => {
-            let ok = (d.res == ResL::Add || d.res == ResL::Mul) && d.op1 != Op1::Op0
-                && d.pc == PcU::Regular && d.opc == Opc::AssertEq
-                && (d.ap == ApU::Regular || d.ap == ApU::Add1);
-            if !ok { return None; }
-            qm31 = true;
-        }
-        _ => return None,
-    }
-    let pc = match d.pc {
-        PcU::Regular => Next::Seq(size),
-        PcU::Jump => Next::Abs(res),
-        PcU::JumpRel => Next::Rel(res),
-        PcU::Jnz => Next::JnzRel(dst, op1v, size),
-    };
-    let ap = match d.ap {
-        ApU::Regular => ApNext::Same,
-        ApU::Add => ApNext::PlusRes(res),
-        ApU::Add1 => ApNext::Plus(1),
-        ApU::Add2 => ApNext::Plus(2),
-    };
-    let (fp, call_writes, assert_eq) = match d.opc {
-        Opc::Nop => (FpNext::Same, None, None),
-        Opc::AssertEq => (FpNext::Same, None, Some((dst, res))),
-        Opc::Call => {
-            if !(d.dst == Reg::AP && d.off0 == 0 && d.op0 == Reg::AP && d.off1 == 1) { return None; }
-            (FpNext::ApPlus2, Some((dst, op0, size)), None)
-        }
-        Opc::Ret => {
-            if !(d.dst == Reg::FP && d.off0 == -2 && d.op1 == Op1::FP && d.off2 == -1
-                && d.res == ResL::Op1 && d.pc == PcU::Jump) { return None; }
-            (FpNext::FromCell(dst), None, None)
-        }
-    };
-    Some(Step { assert_eq, call_writes, blake, pc, ap, fp, qm31 })
-}
-
-// ---------- oracle 2: the meaning of the CASM text ----------
-fn cell(st: St, c: CellRef) -> i64 {
-    (match c.register { Register::AP => st.ap, Register::FP => st.fp }) + c.offset as i64
-}
-fn doi(st: St, x: &DerefOrImmediate) -> Val {
-    match x { DerefOrImmediate::Deref(c) => Val::Cell(cell(st, *c)), DerefOrImmediate::Immediate(_) => Val::Imm }
-}
-fn resop(st: St, r: &ResOperand) -> Val {
-    match r {
-        ResOperand::Deref(c) => Val::Cell(cell(st, *c)),
-        ResOperand::DoubleDeref(c, o) => Val::DD(cell(st, *c), *o as i32),
-        ResOperand::Immediate(_) => Val::Imm,
-        ResOperand::BinOp(b) => {
-            let (a1, imm) = match &b.b {
-                DerefOrImmediate::Deref(c) => (cell(st, *c), false),
-                DerefOrImmediate::Immediate(_) => (0, true),
-            };
-            match b.op {
-                Operation::Add => Val::Add(cell(st, b.a), a1, imm),
-                Operation::Mul => Val::Mul(cell(st, b.a), a1, imm),
-            }
-        }
-    }
-}
-fn imm_of_doi(x: &DerefOrImmediate) -> Option<&BigInt> {
-    match x { DerefOrImmediate::Immediate(v) => Some(&v.value), _ => None }
-}
-fn imm_of_res(x: &ResOperand) -> Option<&BigInt> {
-    match x {
-        ResOperand::Immediate(v) => Some(&v.value),
-        ResOperand::BinOp(b) => imm_of_doi(&b.b),
-        _ => None,
-    }
-}
-/// The immediate the CASM text mentions, if any.
-pub fn imm_of(i: &Instruction) -> Option<&BigInt> {
-    match &i.body {
-        InstructionBody::AddAp(x) => imm_of_res(&x.operand),
-        InstructionBody::AssertEq(x) | InstructionBody::QM31AssertEq(x) => imm_of_res(&x.b),
-        InstructionBody::Call(x) => imm_of_doi(&x.target),
-        InstructionBody::Jump(x) => imm_of_doi(&x.target),
-        InstructionBody::Jnz(x) => imm_of_doi(&x.jump_offset),
-        InstructionBody::Ret(_) | InstructionBody::Blake2sCompress(_) => None,
-    }
-}
-/// `size` is 1 + [the text mentions an immediate] (never taken from `op_size`).
-pub fn ref_step(i: &Instruction, st: St) -> Step {
-    let size: i64 = if imm_of(i).is_some() { 2 } else { 1 };
-    let inc = if i.inc_ap { ApNext::Plus(1) } else { ApNext::Same };
-    let plain = Step {
-        assert_eq: None, call_writes: None, blake: None,
-        pc: Next::Seq(size), ap: inc, fp: FpNext::Same, qm31: false,
-    };
-    match &i.body {
-        // `a = b`
-        InstructionBody::AssertEq(x) => Step { assert_eq: Some((cell(st, x.a), resop(st, &x.b))), ..plain },
-        InstructionBody::QM31AssertEq(x) => Step { assert_eq: Some((cell(st, x.a), resop(st, &x.b))), qm31: true, ..plain },
-        // `ap += x`
-        InstructionBody::AddAp(x) => Step { ap: ApNext::PlusRes(resop(st, &x.operand)), ..plain },
-        // `jmp rel/abs x`
-        InstructionBody::Jump(x) => Step {
-            pc: if x.relative { Next::Rel(doi(st, &x.target)) } else { Next::Abs(doi(st, &x.target)) },
-            ..plain
-        },
-        // `jmp rel x if c != 0`
-        InstructionBody::Jnz(x) => Step { pc: Next::JnzRel(cell(st, x.condition), doi(st, &x.jump_offset), size), ..plain },
-        // `call rel/abs x`: [ap] := fp, [ap+1] := pc + size, fp := ap + 2, ap += 2
-        InstructionBody::Call(x) => Step {
-            call_writes: Some((st.ap, st.ap + 1, size)),
-            pc: if x.relative { Next::Rel(doi(st, &x.target)) } else { Next::Abs(doi(st, &x.target)) },
-            ap: ApNext::Plus(2),
-            fp: FpNext::ApPlus2,
-            ..plain
-        },
-        // `ret`: pc := [fp-1], fp := [fp-2]
-        InstructionBody::Ret(_) => Step { pc: Next::Abs(Val::Cell(st.fp - 1)), ap: ApNext::Same, fp: FpNext::FromCell(st.fp - 2), ..plain },
-        // `blake2s[state, message, byte_count, finalize] => [ap + 0]`, ap++
-        InstructionBody::Blake2sCompress(x) => Step {
-            blake: Some((cell(st, x.state), cell(st, x.message), cell(st, x.byte_count), x.finalize)),
-            ap: ApNext::Plus(1),
-            ..plain
-        },
-    }
-}
+#[path = "c16_oracle.rs"]
+mod oracle;
+use oracle::*;
 
 // ---------- symbolic inputs ----------
 fn any_reg() -> Register { if kani::any() { Register::FP } else { Register::AP } }
@@ -386,22 +129,7 @@ fn c16_ret() {
 //   (b) c16_assemble_*: for every instruction of the shape, executing the fields of assemble(i)
 //       (before encoding) is the meaning of i;
 //   (c) the extension bits of `encode` (word == stone_word + ext * 2^63) are a BOUNDED native
-//       check (unit n_c16_ext), never counted as proved.
-fn reg_of(r: Register) -> Reg { match r { Register::AP => Reg::AP, Register::FP => Reg::FP } }
-/// Reads the fields of the low-level representation as a decoded instruction.
-pub fn dec_of_repr(r: &InstructionRepr) -> Dec {
-    Dec {
-        off0: r.off0 as i32, off1: r.off1 as i32, off2: r.off2 as i32,
-        dst: reg_of(r.dst_register), op0: reg_of(r.op0_register),
-        op1: match r.op1_addr { Op1Addr::Imm => Op1::Imm, Op1Addr::AP => Op1::AP, Op1Addr::FP => Op1::FP, Op1Addr::Op0 => Op1::Op0 },
-        res: match r.res { Res::Op1 => ResL::Op1, Res::Add => ResL::Add, Res::Mul => ResL::Mul, Res::Unconstrained => ResL::Unconstrained },
-        pc: match r.pc_update { PcUpdate::Regular => PcU::Regular, PcUpdate::Jump => PcU::Jump, PcUpdate::JumpRel => PcU::JumpRel, PcUpdate::Jnz => PcU::Jnz },
-        ap: match r.ap_update { ApUpdate::Regular => ApU::Regular, ApUpdate::Add => ApU::Add, ApUpdate::Add1 => ApU::Add1, ApUpdate::Add2 => ApU::Add2 },
-        fp: match r.fp_update { FpUpdate::Regular => FpU::Regular, FpUpdate::ApPlus2 => FpU::ApPlus2, FpUpdate::Dst => FpU::Dst },
-        opc: match r.opcode { Opcode::Nop => Opc::Nop, Opcode::AssertEq => Opc::AssertEq, Opcode::Call => Opc::Call, Opcode::Ret => Opc::Ret },
-        ext: match r.opcode_extension { OpcodeExtension::Stone => 0, OpcodeExtension::Blake2s => 1, OpcodeExtension::Blake2sFinalize => 2, OpcodeExtension::QM31 => 3 },
-    }
-}
+//       check (unit n_c16_shapes), never counted as proved.
 fn any_repr_stone(with_imm: bool) -> InstructionRepr {
     let op1_addr = match kani::any::<u8>() % 4 { 0 => Op1Addr::Imm, 1 => Op1Addr::AP, 2 => Op1Addr::FP, _ => Op1Addr::Op0 };
     let res = match kani::any::<u8>() % 4 { 0 => Res::Op1, 1 => Res::Add, 2 => Res::Mul, _ => Res::Unconstrained };
@@ -416,16 +144,6 @@ fn any_repr_stone(with_imm: bool) -> InstructionRepr {
         op1_addr, res, pc_update, ap_update, fp_update, opcode,
         opcode_extension: OpcodeExtension::Stone,
     }
-}
-/// encode's four `assert_eq!`s, as a predicate (its precondition).
-fn encode_pre(r: &InstructionRepr) -> bool {
-    (r.imm.is_some() == (r.op1_addr == Op1Addr::Imm))
-        && ((r.res == Res::Unconstrained) == (r.pc_update == PcUpdate::Jnz))
-        && ((r.ap_update == ApUpdate::Add2) == (r.opcode == Opcode::Call))
-        && r.fp_update == match r.opcode {
-            Opcode::Nop => FpUpdate::Regular, Opcode::Call => FpUpdate::ApPlus2,
-            Opcode::Ret => FpUpdate::Dst, Opcode::AssertEq => FpUpdate::Regular,
-        }
 }
 fn check_encode_contract(with_imm: bool) {
     let r = any_repr_stone(with_imm);
